@@ -137,16 +137,27 @@ pub fn run_fuzz(ctx: &Ctx, target: &str, runs: u64) -> FuzzOutcome {
     // libFuzzer writes one log per job (fuzz-<n>.log) in the working directory
     let mut text = String::from_utf8_lossy(&out.stderr).to_string();
     text.push_str(&String::from_utf8_lossy(&out.stdout));
+    // with -jobs the parent echoes every job's log; count statistics from the per-job log files only
+    let parent_text = std::mem::take(&mut text);
+    if parent_text.contains("FUZZ-VIOLATION") {
+        text.push_str(parent_text.lines().find(|l| l.contains("FUZZ-VIOLATION")).unwrap_or(""));
+        text.push('\n');
+    }
+    let mut saw_job_log = false;
     if let Ok(rd) = std::fs::read_dir(&fdir) {
         for e in rd.flatten() {
             let n = e.file_name().to_string_lossy().to_string();
             if n.starts_with("fuzz-") && n.ends_with(".log") {
                 if let Ok(t) = std::fs::read_to_string(e.path()) {
                     text.push_str(&t);
+                    saw_job_log = true;
                 }
                 let _ = std::fs::remove_file(e.path());
             }
         }
+    }
+    if !saw_job_log {
+        text.push_str(&parent_text);
     }
     if let Some(line) = text.lines().find(|l| l.contains("FUZZ-VIOLATION")) {
         if let Some(p) = line.split("replay=").nth(1) {
